@@ -28,7 +28,7 @@ theorem tree_is_as_modelled :
     Gen.Qr.checkreplyDrainNonFatal = 1 ∧ Gen.Qr.envelopeDrainStops = 1   -- drain after a rejected MAIL FROM is not fatal
     ∧ Gen.Qr.netgetFatalReset = 1                                        -- errno ECONNRESET/ETIMEDOUT is not taken for a 5xx reply
     ∧ Gen.Qr.netgetNulCheck = 1                                          -- a NUL inside a reply is a syntax error
-    ∧ Gen.Qr.stGreetFail ≠ [] :=                                         -- giving up on the greeting writes a report
+    ∧ (Gen.Qr.greetOtherNextMx = 1 ∨ Gen.Qr.stGreetFail ≠ []) :=         -- an unexpected greeting error: next MX, or a report before giving up
   ⟨rfl, rfl, rfl, rfl, by decide⟩
 
 /-- the one remaining way to a second message report: `read()` failing with ENOMEM (not a
